@@ -101,6 +101,9 @@ def run(ctx, chk, tier="quick"):
         "CLI wiring of -r."
     )
     chk.assumptions = ["numpy.isclose/allclose default tolerances are adequate for grid multiples"]
+    from ..sqlrules import conflict_clauses
+    conflict_clauses(ctx, chk, "C09.O3", ("rise", "recession"), "curve-writes",
+                     "with INSERT OR IGNORE / OR REPLACE a second assembly on a database that already holds a curve reports success while rows of the first assembly remain: the curve is anchored at the old origin, not at this run's reference level")
     descriptors = {}
     for label, fq, tab, ztab, offcol in SITES:
         f = ctx.func(fq)
